@@ -66,6 +66,7 @@ class Entry(object):
         self.value = 7
         self._stop = False
         self.inner = None
+        self.fn_ran = False
 
     # -- underlying completion ------------------------------------------------
     def complete(self, kind):
@@ -101,7 +102,9 @@ class Entry(object):
                     break
             if n == "flat_map" and self.inner is not None:
                 sched.point()
-                finish(self.inner, "value" if kind == "run" else kind, self.value, self.exc)
+                if finish(self.inner, "value" if kind == "run" else kind, self.value, self.exc):
+                    if self.fn_ran:  # (only if the flat_map function really handed the inner future out)
+                        self.ctx.ev.add("inner_work_ran")  # the inner future's work started and ended
             # a real executor dequeues every work item eventually, which is when waiters of
             # a future cancelled meanwhile get notified
             for d in list(me.submitted):
@@ -115,7 +118,8 @@ class Entry(object):
             finish(self.inputs[0], "value", self.value)
             sched.point()
             if self.inner is not None:
-                finish(self.inner, kind, self.value, self.exc)
+                if finish(self.inner, kind, self.value, self.exc) and self.fn_ran:
+                    self.ctx.ev.add("inner_work_ran")
             return
         # f_* over inputs: the first input carries `kind`, the others succeed
         first = True
@@ -175,6 +179,23 @@ def build(ctx, name, fn=None):
 
     e = Entry(ctx, name)
     ev = ctx.ev
+
+    def userfn(ret):
+        """map / flat_map function; with params fn_points it logs its start/end and contains a
+        scheduling point, so that other threads can act while user code runs on the worker"""
+        if not ctx.params.get("fn_points"):
+            def fn0(x):
+                e.fn_ran = True
+                return ret(x)
+            return fn0
+
+        def fn_(x):
+            ev.add("mapfn_start")
+            sched.point()
+            ev.add("mapfn_end")
+            e.fn_ran = True
+            return ret(x)
+        return fn_
     if name.startswith("stack:") or name.startswith("pool:"):
         # "stack:a+b" = layer a applied first (innermost, directly over the manual delegate), then b
         # "pool:a+b"  = the same over a real thread pool (1 worker) behind a recording wrapper
@@ -222,10 +243,10 @@ def build(ctx, name, fn=None):
         me = e.me = ManualExecutor(ev)
         call = fn or (lambda: e.value)
         if name == "map":
-            ex = MapExecutor(me, lambda x: x)
+            ex = MapExecutor(me, userfn(lambda x: x))
         elif name == "flat_map":
             e.inner = RecFuture(ev, "inner")
-            ex = FlatMapExecutor(me, lambda x: e.inner)
+            ex = FlatMapExecutor(me, userfn(lambda x: e.inner))
         elif name == "timeout":
             ex = TimeoutExecutor(me, 5000)
         elif name == "retry":
@@ -252,10 +273,10 @@ def build(ctx, name, fn=None):
     if ctx.params.get("predone") and nin > 1:
         finish(ins[-1], "value", e.value)  # an input that is already finished when the combinator is created
     if name == "f_map":
-        e.fut = F.f_map(ins[0], lambda x: x)
+        e.fut = F.f_map(ins[0], userfn(lambda x: x))
     elif name == "f_flat_map":
         e.inner = RecFuture(ev, "inner")
-        e.fut = F.f_flat_map(ins[0], lambda x: e.inner)
+        e.fut = F.f_flat_map(ins[0], userfn(lambda x: e.inner))
     elif name == "f_nocancel":
         e.fut = F.f_nocancel(ins[0])
     elif name == "f_proxy":
